@@ -35,7 +35,9 @@ func zzResult(id int) *LintResult {
 	if b.Panics {
 		panic("stub lint panics")
 	}
-	return &LintResult{Status: b.Status, Details: b.Details}
+	res := &LintResult{Status: b.Status, Details: b.Details}
+	zzLog = append(zzLog, zzEvent{"result", id, res})
+	return res
 }
 
 type zzCertLint struct{ ID int }
